@@ -408,6 +408,8 @@ func foreignPeersE2E(c *Ctx) {
 				req.Header.Set("Content-Type", ct)
 				if strings.Contains(ct, "grpc") {
 					req.Header.Set("Grpc-Encoding", "identity") // explicit identity is legal
+				} else {
+					req.Header.Set("Connect-Content-Encoding", "identity")
 				}
 				rec := httptest.NewRecorder()
 				h.ServeHTTP(rec, req)
@@ -417,6 +419,48 @@ func foreignPeersE2E(c *Ctx) {
 			if got != fmt.Sprintf("status=200 seen=%q", vals) {
 				c.Fail("e2e-foreign-peer", desc, got, "a conformant foreign client's messages did not reach user code intact and in order")
 			}
+		}
+	}
+	// (a') unary Connect: a zero-valued message is a zero-byte body, whatever Content-Encoding says
+	for _, enc := range []string{"", "identity", "gzip"} {
+		var seen []string
+		h := connect.NewUnaryHandler("/s/m", func(ctx context.Context, r *connect.Request[wrapperspb.StringValue]) (*connect.Response[wrapperspb.StringValue], error) {
+			seen = append(seen, "<"+r.Msg.Value+">")
+			return connect.NewResponse(&wrapperspb.StringValue{}), nil
+		})
+		desc := fmt.Sprintf("foreign client, unary Connect, empty body, Content-Encoding %q", enc)
+		got := safely(func() string {
+			req := httptest.NewRequest(http.MethodPost, "/s/m", bytes.NewReader(nil))
+			req.Header.Set("Content-Type", "application/proto")
+			if enc != "" {
+				req.Header.Set("Content-Encoding", enc)
+			}
+			rec := httptest.NewRecorder()
+			h.ServeHTTP(rec, req)
+			return fmt.Sprintf("status=%d seen=%q", rec.Code, seen)
+		})
+		c.Count("e2e:foreign-client")
+		if got != `status=200 seen=["<>"]` {
+			c.Fail("e2e-foreign-peer", desc, got, "a zero-valued unary message (empty body) did not reach user code")
+		}
+		// … and the same in the response direction
+		desc = fmt.Sprintf("foreign server, unary Connect, empty 200 body, Content-Encoding %q", enc)
+		got = safely(func() string {
+			header := http.Header{"Content-Type": {"application/proto"}}
+			if enc != "" {
+				header.Set("Content-Encoding", enc)
+			}
+			sc := &staticClient{status: 200, header: header, body: nil}
+			cl := connect.NewClient[wrapperspb.StringValue, wrapperspb.StringValue](sc, "http://h/s/m")
+			res, err := cl.CallUnary(context.Background(), connect.NewRequest(&wrapperspb.StringValue{}))
+			if err != nil {
+				return "err=" + err.Error()
+			}
+			return fmt.Sprintf("value=%q", res.Msg.Value)
+		})
+		c.Count("e2e:foreign-server")
+		if got != `value=""` {
+			c.Fail("e2e-foreign-peer", desc, got, "a zero-valued unary response (empty body) did not reach the application")
 		}
 	}
 	// (b) responses from a foreign server to a real client
